@@ -62,8 +62,13 @@ def restored_set(prog: Program, rep: Report) -> None:
         get_, item_ = f"{DS}.variables.get({var})", f"{DS}.variables[{var}]"
         conds = [(t.replace(get_, item_), k) for t, k in conds]
         stores = [(t.replace(get_, item_), v.replace(get_, item_), n_) for t, v, n_ in stores]
+        from ..program import positive_cond
+
         truth = {}
         for text, taken in conds:
+            text, taken = positive_cond(text, taken)
+            if text == f"{item_} is None":
+                text, taken = f"{item_} is not None", not taken
             if text == f"{item_} is not None":
                 text = f"{var} in {DS}.variables"
             elif text == f"{item_} is None":
@@ -293,7 +298,7 @@ def run(prog: Program, rep: Report, tier: str) -> None:
             rep.add("R08.8", o.func, f"[{o.rule}] {o.construct}", o.verdict == "ok" if o.verdict != "undecided" else None, o.what, o.loc)
     from ..share import share
 
-    share(prog, rep, "C03", ("R03.2", "R03.3", "R03.4"), "R08.9", "a restart between two forcing frames is primed with the same interpolation as the uninterrupted run", 4)
+    share(prog, rep, "C03", ("R03.2", "R03.3", "R03.4", "R03.6"), "R08.9", "a restart between two forcing frames is primed with the same interpolation as the uninterrupted run", 4)
 
 
 
